@@ -10,6 +10,7 @@ from engine.callgraph import Resolver
 from engine.cfg import CFG, normalise_compare, atoms
 from engine.escape import Escape
 from engine.guards import make_guard
+from engine import pat
 from engine.model import src, stmt_key, dotted, AnalysisError, walk_no_nested
 from engine.util import own_nodes, calls_with_nodes, where, with_exprs
 
@@ -224,6 +225,41 @@ def build(model):
     return R, E
 
 
+def check_parser_reads(model, rep, rule):
+    """Parser reads are bounded and exact (shared with C14: the 48-bit TSIG time is read through get_uint48)."""
+    P = "dns.wirebase.Parser"
+    gb = model.func(f"{P}.get_bytes")
+    cfg = CFG(gb.node, implicit_exc=False)
+    tests = [n for n in cfg.nodes if n.kind == "test" and atoms(normalise_compare(n.ast.test)) == [("size", ">", "self.remaining()")]]
+    sl = [n for n in cfg.nodes if n.ast is not None and n.kind == "stmt" and "self.wire[self.current:self.current + size]" in src(n.ast)]
+    okk = len(tests) == 1 and len(sl) == 1 and cfg.edge_dominated(sl[0].id, {(tests[0].id, "f")}) and any(isinstance(s, ast.Raise) and "FormError" in src(s) for s in tests[0].ast.body)
+    rep.check(okk, rule, gb.qualname, where(gb, gb.node), "the slice is taken only when size <= remaining(), else FormError", "Parser.get_bytes can slice past the end (short reads become struct.error/IndexError further on)", stmt="bounded-slice")
+    import struct as _st
+    for name, fmt, n in (("get_uint8", "!B", 1), ("get_uint16", "!H", 2), ("get_uint32", "!I", 4)):
+        f = model.func(f"{P}.{name}")
+        t = " ".join(src(f.node).split())
+        rep.check(f"struct.unpack('{fmt}', self.get_bytes({n}))[0]" in t and _st.calcsize(fmt) == n, rule, f.qualname, where(f, f.node), f"unpacks '{fmt}' from exactly {n} octets",
+                  f"{name} unpacks a format whose size is not the number of octets read", stmt="exact-size")
+    f = model.func(f"{P}.get_uint48")
+    whole = "int.from_bytes(self.get_bytes(6), 'big')" in src(f.node)
+    split = pat.has_expr(f.node, "struct.unpack('!HI', self.get_bytes(6))") and (pat.has_expr(f.node, "(__h << 32) | __l") or pat.has_expr(f.node, "__l | (__h << 32)") or pat.has_expr(f.node, "(__h << 32) + __l"))
+    rep.check(whole or bool(split), rule, f.qualname, where(f, f.node), "48-bit big-endian from exactly 6 octets",
+              "get_uint48 does not assemble a 48-bit big-endian integer from exactly 6 octets (e.g. the high 16 bits shifted by 16 instead of 32): TSIG times at or above 2**32 are misread, "
+              "so a genuine message is rejected with BadTime", stmt="exact-size")
+    f = model.func(f"{P}.get_struct")
+    rep.check("struct.unpack(format, self.get_bytes(struct.calcsize(format)))" in src(f.node), rule, f.qualname, where(f, f.node), "unpacks from exactly calcsize(format) octets", "get_struct reads a different number of octets than the format needs", stmt="exact-size")
+    f = model.func(f"{P}.get_counted_bytes")
+    t = " ".join(src(f.node).split())
+    rep.check("length = int.from_bytes(self.get_bytes(length_size), 'big')" in t and "return self.get_bytes(length)" in t, rule, f.qualname, where(f, f.node), "counted bytes go through the bounded get_bytes", "get_counted_bytes bypasses get_bytes", stmt="counted")
+    # who touches Parser.wire directly
+    for g in model.all_functions():
+        if g.cls is not None and g.cls.qualname == P:
+            continue
+        for n in ast.walk(g.node):
+            if isinstance(n, ast.Subscript) and isinstance(n.value, ast.Attribute) and n.value.attr == "wire" and "parser" in src(n.value.value):
+                rep.bad(rule, g.qualname, where(g, n), f"`{src(n)[:40]}` slices the parser's buffer directly, bypassing the bounds checks", stmt="direct-slice")
+
+
 def run(model, rep, tier):
     R, E = build(model)
     H = E.h
@@ -357,33 +393,7 @@ def run(model, rep, tier):
         rep.check(model.is_subclass(ci, "dns.exception.DNSException"), "R-04.4", q, f"{ci.file}:{ci.node.lineno}", "derives from DNSException", f"{q} left the DNSException hierarchy", stmt="base")
 
     # ---------------------------------------------------------------- R-04.5
-    P = "dns.wirebase.Parser"
-    gb = model.func(f"{P}.get_bytes")
-    cfg = CFG(gb.node, implicit_exc=False)
-    tests = [n for n in cfg.nodes if n.kind == "test" and atoms(normalise_compare(n.ast.test)) == [("size", ">", "self.remaining()")]]
-    sl = [n for n in cfg.nodes if n.ast is not None and n.kind == "stmt" and "self.wire[self.current:self.current + size]" in src(n.ast)]
-    okk = len(tests) == 1 and len(sl) == 1 and cfg.edge_dominated(sl[0].id, {(tests[0].id, "f")}) and any(isinstance(s, ast.Raise) and "FormError" in src(s) for s in tests[0].ast.body)
-    rep.check(okk, "R-04.5", gb.qualname, where(gb, gb.node), "the slice is taken only when size <= remaining(), else FormError", "Parser.get_bytes can slice past the end (short reads become struct.error/IndexError further on)", stmt="bounded-slice")
-    import struct as _st
-    for name, fmt, n in (("get_uint8", "!B", 1), ("get_uint16", "!H", 2), ("get_uint32", "!I", 4)):
-        f = model.func(f"{P}.{name}")
-        t = " ".join(src(f.node).split())
-        rep.check(f"struct.unpack('{fmt}', self.get_bytes({n}))[0]" in t and _st.calcsize(fmt) == n, "R-04.5", f.qualname, where(f, f.node), f"unpacks '{fmt}' from exactly {n} octets",
-                  f"{name} unpacks a format whose size is not the number of octets read", stmt="exact-size")
-    f = model.func(f"{P}.get_uint48")
-    rep.check("int.from_bytes(self.get_bytes(6), 'big')" in src(f.node), "R-04.5", f.qualname, where(f, f.node), "48-bit big-endian from exactly 6 octets", "get_uint48 changed", stmt="exact-size")
-    f = model.func(f"{P}.get_struct")
-    rep.check("struct.unpack(format, self.get_bytes(struct.calcsize(format)))" in src(f.node), "R-04.5", f.qualname, where(f, f.node), "unpacks from exactly calcsize(format) octets", "get_struct reads a different number of octets than the format needs", stmt="exact-size")
-    f = model.func(f"{P}.get_counted_bytes")
-    t = " ".join(src(f.node).split())
-    rep.check("length = int.from_bytes(self.get_bytes(length_size), 'big')" in t and "return self.get_bytes(length)" in t, "R-04.5", f.qualname, where(f, f.node), "counted bytes go through the bounded get_bytes", "get_counted_bytes bypasses get_bytes", stmt="counted")
-    # who touches Parser.wire directly
-    for g in model.all_functions():
-        if g.cls is not None and g.cls.qualname == P:
-            continue
-        for n in ast.walk(g.node):
-            if isinstance(n, ast.Subscript) and isinstance(n.value, ast.Attribute) and n.value.attr == "wire" and "parser" in src(n.value.value):
-                rep.bad("R-04.5", g.qualname, where(g, n), f"`{src(n)[:40]}` slices the parser's buffer directly, bypassing the bounds checks", stmt="direct-slice")
+    check_parser_reads(model, rep, "R-04.5")
 
     # ---------------------------------------------------------------- R-04.6
     CONSUMERS = ("get_uint8", "get_uint16", "get_uint32", "get_uint48", "get_bytes", "get_struct", "get_name", "get_counted_bytes", "get_remaining", "_get_char", "get", "get_eol", "get_eol_as_token",
